@@ -163,12 +163,12 @@ def case_gphp(ctx, cls, L, R, masks, as_nx):
                                ("gphp", L, R, mask, functional, onto, cls, as_nx), nontrivial=len(E) > 0)
 
 
-def case_bphp(ctx, cls, mmax, nmax):
+def case_bphp(ctx, cls, mmax, nmax, mmin=0):
     tt.selfcheck()
     K = S.formula_classes()[cls]
     g = gens()
     cap = S.CAP[ctx.tier]
-    for m in range(0, mmax + 1):
+    for m in range(mmin, mmax + 1):
         for n in range(0, nmax + 1):
             bits = (n - 1).bit_length() if n >= 1 else 0
             if m * bits > cap:
@@ -237,7 +237,7 @@ def case_rphp(ctx, cls, m, t):
     K = S.formula_classes()[cls]
     g = gens()
     cap = S.CAP[ctx.tier]
-    for n in range(0, 4):
+    for n in range(0, 4 if ctx.tier == 'quick' else 5):
         nv = m * t + t * n + t
         if nv > cap:
             continue
@@ -266,8 +266,8 @@ def case_count(ctx, cls):
     K = S.formula_classes()[cls]
     g = gens()
     cap = S.CAP[ctx.tier]
-    for M in range(0, 8):
-        for p in range(1, 5):
+    for M in range(0, 8 if ctx.tier == 'quick' else 10):
+        for p in range(1, 5 if ctx.tier == 'quick' else 6):
             nv = math.comb(M, p)
             if nv > cap:
                 continue
@@ -498,40 +498,47 @@ def workload(tier, seed):
     import random
     quick = tier == "quick"
     for cls in ("CNF", "OPB"):
-        yield "php", {"cls": cls, "mmax": 4, "nmax": 4}
-        yield "bphp", {"cls": cls, "mmax": 4, "nmax": 8}
-        for m in range(0, 4):
-            for t in range(0, 4):
+        yield "php", {"cls": cls, "mmax": 4 if quick else 6, "nmax": 4 if quick else 6}
+        for mm in range(0, (4 if quick else 5) + 1):
+            yield "bphp", {"cls": cls, "mmin": mm, "mmax": mm, "nmax": 8 if quick else 16}
+        for m in range(0, 4 if quick else 5):
+            for t in range(0, 4 if quick else 5):
                 yield "rphp", {"cls": cls, "m": m, "t": t}
         yield "count", {"cls": cls}
-        for n in range(0, 5):
+        for n in range(0, 5 if quick else 6):
             yield "cliquecoloring", {"cls": cls, "n": n}
         # bipartite graphs: every edge set for small sides
-        sides = [(L, R) for L in range(0, 4) for R in range(0, 4) if L * R <= 9]
+        sides = [(L, R) for L in range(0, 5) for R in range(0, 5) if L * R <= (9 if quick else 12)]
         for (L, R) in sides:
             allmasks = range(1 << (L * R))
             for ch in chunks(allmasks, 32):
                 for as_nx in (False, True):
-                    if as_nx and (L * R > 4 or L * R == 0):
+                    if as_nx and (L * R > (4 if quick else 6) or L * R == 0):
                         continue
                     yield "gphp", {"cls": cls, "L": L, "R": R, "masks": ch, "as_nx": as_nx}
                     yield "subsetcard", {"cls": cls, "L": L, "R": R, "masks": ch, "as_nx": as_nx}
         r = random.Random("c01-%d" % seed)
         for (L, R) in ((4, 4), (3, 5), (4, 3)):
-            masks = sorted({r.getrandbits(L * R) for _ in range(24 if quick else 200)})
+            masks = sorted({r.getrandbits(L * R) for _ in range(60 if quick else 1500)})
             masks = [m for m in masks if bin(m).count("1") <= 16]
             for ch in chunks(masks, 12):
                 yield "gphp", {"cls": cls, "L": L, "R": R, "masks": ch, "as_nx": False}
                 yield "subsetcard", {"cls": cls, "L": L, "R": R, "masks": ch, "as_nx": False}
-        for n in range(0, 6):
+        for n in range(0, 6 if quick else 7):
             npairs = n * (n - 1) // 2
-            for ch in chunks(range(1 << npairs), 64):
+            for ch in chunks(range(1 << npairs), 64 if n < 6 else 512):
                 yield "matching", {"cls": cls, "n": n, "masks": ch, "as_nx": False}
             if n <= 4:
                 for ch in chunks(range(1 << npairs), 64):
                     yield "matching", {"cls": cls, "n": n, "masks": ch, "as_nx": True}
-        masks = sorted({r.getrandbits(15) for _ in range(40 if quick else 300)})
-        for ch in chunks(masks, 20):
-            yield "matching", {"cls": cls, "n": 6, "masks": ch, "as_nx": False}
-        for i in range(1 if quick else 6):
+        if quick:
+            masks = sorted({r.getrandbits(15) for _ in range(200)})
+            for ch in chunks(masks, 25):
+                yield "matching", {"cls": cls, "n": 6, "masks": ch, "as_nx": False}
+        else:
+            masks = sorted({r.getrandbits(21) for _ in range(2000)})     # 7 vertices, seeded
+            masks = [m for m in masks if bin(m).count("1") <= 22]
+            for ch in chunks(masks, 50):
+                yield "matching", {"cls": cls, "n": 7, "masks": ch, "as_nx": False}
+        for i in range(2 if quick else 16):
             yield "sampled", {"cls": cls, "rseed": seed * 100 + i}
